@@ -12,6 +12,7 @@ import (
 	"time"
 
 	"github.com/KimMachineGun/automemlimit/memlimit"
+	"github.com/alecthomas/kong"
 	"github.com/lmittmann/tint"
 	"github.com/mattn/go-colorable"
 	"github.com/mattn/go-isatty"
@@ -30,7 +31,7 @@ import (
 )
 
 type serverApp struct {
-	Root                  string           `help:"Root directory with games." type:"existingdir" default:"." env:"PS3NETSRV_ROOT"`
+	Root                  string           `help:"Root directory with games." default:"." env:"PS3NETSRV_ROOT"`
 	ListenAddr            string           `help:"Main server listen address." default:"0.0.0.0:38008" env:"PS3NETSRV_LISTEN_ADDR"`
 	Debug                 bool             `help:"Enable debug log messages." env:"PS3NETSRV_DEBUG"`
 	JSONLog               bool             `help:"Output log messages in json format." env:"PS3NETSRV_JSON_LOG"`
@@ -41,6 +42,25 @@ type serverApp struct {
 	AllowWrite            bool             `help:"Allow writing/modifying filesystem operations." env:"PS3NETSRV_ALLOW_WRITE"`
 	// default value found during debugging
 	BufferSize int64 `help:"Size of buffer for data transfer. Change it only if you know what you doing." type:"binsize" default:"64k" env:"PS3NETSRV_BUFFER_SIZE"`
+}
+
+// AfterApply validates root directory.
+// "existingdir" mapper is not used for it because it silently drops values coming from config files.
+func (sapp *serverApp) AfterApply() error {
+	root := kong.ExpandPath(sapp.Root)
+
+	stat, err := os.Stat(root)
+	if err != nil {
+		return fmt.Errorf("root directory: %w", err)
+	}
+
+	if !stat.IsDir() {
+		return fmt.Errorf("root %q exists but is not a directory", root)
+	}
+
+	sapp.Root = root
+
+	return nil
 }
 
 func (sapp *serverApp) setupLogger() {
